@@ -1077,6 +1077,9 @@ def module_scenarios(rng, count):
             b.fn("builtins", []); b.ret(tup(call(b.v("type"), lit(1)), b.v("Vec"), b.v("StopIter"), inv(inv(vec(lit(1)), "iter"), "collect"))); b.end()
             b.fn("peek", []); b.ret(b.v("main_only")); b.end()             # must not see the importer's globals
             b.fn("poke", []); b.expr(b.assign("main_only", lit("overwritten by " + mname))); b.ret(lit("poked")); b.end()
+            # the importer's globals stay invisible whatever they hold (a built-in function, a class, a closure, a module)
+            for probe in ("main_native", "main_class", "main_closure"):
+                b.fn("peek_" + probe, []); b.ret(b.v(probe)); b.end()
             for o in edges[mname]:
                 style = rng.choice(["top", "try", "fn"])
                 alias = "im_" + o
@@ -1093,12 +1096,15 @@ def module_scenarios(rng, count):
         b = Builder()
         b.var("g", lit("g@main"))
         b.var("main_only", lit("visible in main only"))
+        b.var("main_native", b.v("print"))
+        b.var("main_class", b.v("Vec"))
+        b.var("main_closure", b.lam([], lambda: lit("main's closure")))
         nsteps = rng.randint(2, 6)
         for step in range(nsteps):
             target = rng.choice(mods + (["nowhere"] if rng.random() < 0.1 else []))
             alias = "x%d" % step
             act = rng.choice(["import-print", "import-call", "import-twice-same", "import-in-fn", "set-attr", "missing-attr", "late", "leak-check",
-                              "builtins", "import-uncaught", "peek", "poke"])
+                              "builtins", "import-uncaught", "peek", "poke", "peek-kinds", "attr-kinds"])
             if act == "import-uncaught":
                 if step < nsteps - 1:
                     act = "import-print"
@@ -1127,6 +1133,10 @@ def module_scenarios(rng, count):
                 b.import_(target, alias); b.print(inv(b.v(alias), "peek"))
             elif act == "poke":
                 b.import_(target, alias); b.print(inv(b.v(alias), "poke"))
+            elif act == "peek-kinds":
+                b.import_(target, alias); b.print(inv(b.v(alias), "peek_" + rng.choice(["main_native", "main_class", "main_closure"])))
+            elif act == "attr-kinds":
+                b.import_(target, alias); b.print(get(b.v(alias), rng.choice(["main_native", "main_class", "main_closure", "main_only"])))
             b.catch("e"); b.print(tup(lit("main caught"), call(b.v("type"), b.v("e")), get(b.v("e"), "context"))); b.end()
         b.print(b.v("g"))
         b.print(b.v("main_only"))
